@@ -272,6 +272,9 @@ def threads_rules(ctx, rule="R15.3"):
 
 
 def run(ctx):
+    from .C09 import directions
+
+    directions(ctx, rule="R15.5")  # what the directional kernel assumes about its arguments (normed directions, bandwidth 'off' value, separated flag with |cos|)
     loop_rules(ctx)
     wrapper_rules(ctx)
     threads_rules(ctx)
